@@ -4,8 +4,10 @@ Open Scope N_scope.
 
 Inductive c26case :=
 | CSetPath (src : bytes) (impl : bytes)     (* u.SetPathBytes(src); impl = u.Path() *)
-| CParse (uri : bytes) (impl : bytes).      (* u.Parse(host, uri) / ctx.Request.SetRequestURI(uri); impl = Path()
-                                               (uri without CTL bytes and without "://", host non-empty) *)
+| CParse (uri : bytes) (impl : bytes)       (* u.Parse(host, uri) / ctx.Request.SetRequestURI(uri) / a request read from the wire;
+                                               impl = Path() (uri without CTL bytes and without "://", host non-empty) *)
+| CUpdate (basePath newURI impl : bytes).   (* u.Update(newURI) on a URI whose Path() was basePath (no '%' in basePath; newURI
+                                               without ':' and not starting with "//"); impl = Path() afterwards *)
 
 (* func (u *URI) Path(): `if len(path) == 0 { path = strSlash }` *)
 Definition uriPath (path : bytes) : bytes := match path with [] => strSlash | _ => path end.
@@ -31,10 +33,36 @@ Fixpoint path_part (uri : bytes) : bytes :=
   | c :: r => if (c =? QM) || (c =? HASH) then [] else c :: path_part r
   end.
 
+(* func (u *URI) updateBytes: which string ends up as pathOriginal (the URI is re-parsed from
+   scheme://host + quoted(dir) + newURI; quoting is undone by the decoding step, dir has no '%') *)
+Definition updatePathOriginal (basePath newURI : bytes) : option bytes :=
+  match newURI with
+  | [] => None                                                        (* len(newURI) == 0: nothing happens *)
+  | c :: _ =>
+      if c =? SLASH then Some (parsePathOriginal newURI)              (* uri without host *)
+      else if (c =? QM) || (c =? HASH) then None                      (* query / hash only *)
+      else match lastIndexByte basePath SLASH with                    (* relative path: replace the last path part *)
+           | Some n => Some (firstn (n + 1) basePath ++ parsePathOriginal newURI)
+           | None => None
+           end
+  end.
+
+(* spec side of a relative reference: RFC 3986 5.2.3 merge (base directory ++ reference path), then 5.2.4 *)
+Fixpoint base_dir (p : bytes) : bytes :=          (* up to and including the last '/' *)
+  match p with
+  | [] => []
+  | c :: r => if existsb (N.eqb SLASH) r then c :: base_dir r else if c =? SLASH then [c] else []
+  end.
+
 Definition corr_ok (c : c26case) : bool :=
   match c with
   | CSetPath src impl => beq (uriPath (normalizePath src)) impl
   | CParse uri impl => beq (uriPath (normalizePath (parsePathOriginal uri))) impl
+  | CUpdate basePath newURI impl =>
+      match updatePathOriginal basePath newURI with
+      | Some po => beq (uriPath (normalizePath po)) impl
+      | None => beq basePath impl
+      end
   end.
 
 (* the property, judged on what the implementation returned *)
@@ -42,4 +70,13 @@ Definition prop_ok (c : c26case) : bool :=
   match c with
   | CSetPath src impl => beq impl (spec_path src) && shape_okb impl
   | CParse uri impl => beq impl (spec_path (path_part uri)) && shape_okb impl
+  | CUpdate basePath newURI impl =>
+      shape_okb impl &&
+      match newURI with
+      | [] => beq impl basePath
+      | c :: _ =>
+          if c =? SLASH then beq impl (spec_path (path_part newURI))
+          else if (c =? QM) || (c =? HASH) then beq impl basePath
+          else beq impl (spec_path (base_dir basePath ++ path_part newURI))
+      end
   end.
